@@ -260,6 +260,8 @@ pub struct RecOutcome {
     pub panic: Option<String>,
     pub read_stats: (usize, usize, usize, usize),
     pub stream_result: Option<String>,
+    /// `record_artifact` on single files of the tree: (path, result as (key, digests))
+    pub singles: Vec<(String, Result<(String, BTreeMap<String, String>), String>)>,
 }
 
 fn to_snapshot(m: &BTreeMap<in_toto::models::VirtualTargetPath, in_toto::models::TargetDescription>) -> Snapshot {
@@ -323,7 +325,37 @@ pub fn run_recorder(t: &RecorderTrace, scratch: &Scratch) -> RecOutcome {
                 }
             };
             let stats = if t2.read_faults.is_some() { crate::seams::read_disarm() } else { (0, 0, 0, 0) };
-            (out, stats)
+            // the single-file entry point on some of the tree's regular files, named as the tree names them
+            let mut singles = vec![];
+            if t2.run.is_none() {
+                let algs: Vec<in_toto::crypto::HashAlgorithm> = match &t2.algs {
+                    None => vec![in_toto::crypto::HashAlgorithm::Sha256],
+                    Some(v) => v
+                        .iter()
+                        .map(|a| match a.as_str() {
+                            "sha256" => in_toto::crypto::HashAlgorithm::Sha256,
+                            "sha512" => in_toto::crypto::HashAlgorithm::Sha512,
+                            o => in_toto::crypto::HashAlgorithm::Unknown(o.to_string()),
+                        })
+                        .collect(),
+                };
+                let files: Vec<&String> = t2.tree.iter().filter_map(|op| if let TreeOp::File { path, .. } = op { Some(path) } else { None }).collect();
+                for (i, path) in files.iter().enumerate() {
+                    if i % 3 != (t2.io_seed % 3) as usize || singles.len() >= 4 {
+                        continue;
+                    }
+                    let r = in_toto::runlib::record_artifact(path, &algs, ls_owned.as_deref())
+                        .map(|(k, d)| {
+                            let mut one = BTreeMap::new();
+                            one.insert(k, d);
+                            let snap = to_snapshot(&one);
+                            snap.into_iter().next().unwrap_or_default()
+                        })
+                        .map_err(|e| e.to_string());
+                    singles.push(((*path).clone(), r));
+                }
+            }
+            (out, stats, singles)
         })
     });
     let products_expect = expect_for(&paths, &lstrip, &algs);
@@ -334,11 +366,11 @@ pub fn run_recorder(t: &RecorderTrace, scratch: &Scratch) -> RecOutcome {
         }
     }
     match r {
-        Ok((Ok(x), stats)) => RecOutcome { materials_expect, products_expect, result: Ok(x), err_class: String::new(), panic: None, read_stats: stats, stream_result: None },
-        Ok((Err((c, m)), stats)) => RecOutcome { materials_expect, products_expect, result: Err(m), err_class: c, panic: None, read_stats: stats, stream_result: None },
+        Ok((Ok(x), stats, singles)) => RecOutcome { materials_expect, products_expect, result: Ok(x), err_class: String::new(), panic: None, read_stats: stats, stream_result: None, singles },
+        Ok((Err((c, m)), stats, singles)) => RecOutcome { materials_expect, products_expect, result: Err(m), err_class: c, panic: None, read_stats: stats, stream_result: None, singles },
         Err(p) => {
             crate::seams::read_disarm();
-            RecOutcome { materials_expect, products_expect, result: Err(String::new()), err_class: String::new(), panic: Some(p), read_stats: (0, 0, 0, 0), stream_result: None }
+            RecOutcome { materials_expect, products_expect, result: Err(String::new()), err_class: String::new(), panic: Some(p), read_stats: (0, 0, 0, 0), stream_result: None, singles: vec![] }
         }
     }
 }
@@ -383,6 +415,44 @@ pub fn judge_recorder(t: &RecorderTrace, o: &RecOutcome) -> Vec<Finding> {
     if let Some(p) = &o.panic {
         f.push(Finding { prop: "C14".into(), clause: "panic-in-recorder".into(), detail: p.clone() });
         return f;
+    }
+    // the single-file entry point: key = the path as given with the longest matching strip-prefix removed,
+    // digests = those of the file's bytes
+    {
+        let algs: Vec<String> = t.algs.clone().unwrap_or_else(|| vec!["sha256".to_string()]);
+        let known_algs = algs.iter().all(|x| x == "sha256" || x == "sha512");
+        for (path, r) in &o.singles {
+            let spec = t.tree.iter().rev().find_map(|op| if let TreeOp::File { path: p, size, seed } = op { if p == path { Some((*size, *seed)) } else { None } } else { None });
+            let (size, seed) = match spec {
+                Some(x) => x,
+                None => continue,
+            };
+            // (a later tree operation may have replaced the file by something else)
+            let last_is_file = t.tree.iter().rev().find_map(|op| match op {
+                TreeOp::File { path: p, .. } if p == path => Some(true),
+                TreeOp::Link { path: p, .. } | TreeOp::Fifo(p) | TreeOp::Socket(p) | TreeOp::Dir(p) if p == path => Some(false),
+                _ => None,
+            });
+            if last_is_file != Some(true) || !known_algs {
+                continue;
+            }
+            let want_key = strip(path, &t.lstrip);
+            let want = digests(&file_content(size, seed), &algs);
+            match r {
+                Ok((k, d)) => {
+                    if *k != want_key || *d != want {
+                        f.push(Finding { prop: "C18".into(), clause: "single-file-record-differs".into(), detail: format!("record_artifact('{path}') = ('{k}', {:?}), expected ('{want_key}', {:?})", d, want) });
+                        return f;
+                    }
+                }
+                Err(e) => {
+                    if !want_key.is_empty() {
+                        f.push(Finding { prop: "C18".into(), clause: "single-file-record-fails".into(), detail: format!("record_artifact('{path}') failed on a regular file: {e}") });
+                        return f;
+                    }
+                }
+            }
+        }
     }
     let faults = t.read_faults.is_some();
     let unknown_alg = t.algs.as_ref().map(|a| a.iter().any(|x| x != "sha256" && x != "sha512")).unwrap_or(false);
@@ -525,6 +595,9 @@ fn fold(t: &RecorderTrace, o: Option<&RecOutcome>, findings: Vec<Finding>, strea
         }
         if !o.materials_expect.cyclic.is_empty() {
             rec.probe("link cycle in the recorded tree");
+        }
+        if o.singles.iter().any(|x| x.1.is_ok()) {
+            rec.probe("record_artifact on a single file of the tree");
         }
         if !o.materials_expect.dangling.is_empty() {
             rec.probe("dangling link in the recorded tree");
